@@ -148,7 +148,7 @@ def setup(interp, local, remote):
 
 REPLAY_HEAD = '''# replay of a counterexample found by /verif (property C20) on the real rpyc: real files, in-process "remote"
 import sys, os, tempfile, shutil, builtins
-sys.path.insert(0, "/repo")
+sys.path.insert(0, __import__("os").environ.get("VERIF_REPO", "/repo"))
 from rpyc.utils import classic
 class Mods(object): os = os
 class Conn(object):
